@@ -48,7 +48,11 @@ class WrapEngine(Engine):
         self.wraps = []
 
     def on_unsigned_wrap(self, st, r, ty, node, op, d):
-        self.wraps.append((self.fn, node, op, ty, d))
+        # only arithmetic on the Hello counter's data path counts: the operands must involve the symbol r
+        # (a diagnostics counter such as `blocks++` may wrap without touching the count)
+        from ..terms import atoms_of
+        involved = any(a[0] == 'sym' and a[1] == 'r' for a in atoms_of(st.canon(r)))
+        self.wraps.append((self.fn, node, op, ty, d, involved))
 
 
 def run(tier):
@@ -85,11 +89,11 @@ def run(tier):
     I, outs = run_entry(prog, AUTOMATA_UNIT, 'band_update_stats', lambda I, st: mk_band(st), engine=E, name='band_update_stats', tracked=(r, begun))
     collect_failures(rep, I, 'R13.ub')
     fnode = ix.functions['band_update_stats']
-    for fn, node, op, ty, d in E.wraps:
-        if fn == 'band_update_stats' and op in ('mul', 'add', 'shl'):
+    for fn, node, op, ty, d, involved in E.wraps:
+        if fn == 'band_update_stats' and op in ('mul', 'add', 'shl') and involved:
             rep.fail('R13.2', 'band_update_stats|%s|%s' % (op, ty), 'unsigned %s arithmetic (%s) on the path r -> Ni may wrap around: mathematical range %s'
                      % (ty, op, d), node=node, function=fn)
-    if not any(w[0] == 'band_update_stats' for w in E.wraps):
+    if not any(w[0] == 'band_update_stats' and w[5] for w in E.wraps):
         rep.ok('R13.2')
     want = {(r, r) if BETA == 2 else tuple([r] * BETA): ALPHA}
     monomial = None
